@@ -98,6 +98,11 @@ def gen_case(r, dlcis, finding = False):
 	queued = 0          # messages queued and not yet completely pulled (approx.)
 	nops = r.randint(5, 40)
 	few = r.sample(dlcis, r.randint(1, min(6, len(dlcis))))
+	if r.random() < 0.04:
+		# a long backlog: hundreds of short messages queued before anything is pulled
+		for _ in range(r.choice((255, 256, 257, 300, 520))):
+			ops.append(("S", r.choice(few), r.randbytes(r.randint(0, 6))))
+		ops.append(("P", r.choice((50, 700, 3000))))
 	for _ in range(nops):
 		k = r.random()
 		if k < 0.5:
